@@ -2,7 +2,7 @@
 (* Generator configurations of HO.tla (direction A). *)
 EXTENDS Integers, Sequences, FiniteSets, TLC
 
-CONSTANTS MaxInner, MaxSteps, MaxPerSrc, Cuts, InstSetName, TailSetName
+CONSTANTS MaxInner, MaxSteps, MaxPerSrc, Cuts, InstSetName, TailSetName, SyncSetName
 
 I(op, g) == [op |-> op, g |-> g]
 Flat == {I("MergeAll", "MergeAll"), I("MergeAll", "MergeMap"), I("ConcatAll", "ConcatAll"), I("ConcatAll", "FlatMap")}
@@ -11,8 +11,11 @@ InstSet == CASE InstSetName = "flat" -> Flat [] InstSetName = "collecting" -> Co
 
 TailSet == IF TailSetName = "cuts" THEN {"Take1", "Throw1"} ELSE {"none"}
 
-VARIABLES m, tail, phase, closed, unsub, log, h, sent, ost, octx, intro, ist, nsub, last, q, blk
-M == INSTANCE HO WITH HInsts <- InstSet, Tails <- TailSet
+NoSync == {[j |-> 0, k |-> "C"]}
+SyncSet == IF SyncSetName = "ends" THEN {[j |-> x, k |-> kk] : x \in 1..MaxInner, kk \in {"C", "E"}} ELSE NoSync
+
+VARIABLES m, tail, sync, synced, phase, closed, unsub, log, h, sent, ost, octx, intro, ist, nsub, last, q, blk
+M == INSTANCE HO WITH HInsts <- InstSet, Tails <- TailSet, SyncInner <- SyncSet
 Spec == M!Spec
 Grammar == M!Grammar
 ClosedReleasesAll == M!ClosedReleasesAll
